@@ -1,4 +1,7 @@
+#[cfg(not(goml_verif))]
 use std::collections::{HashMap, HashSet};
+#[cfg(goml_verif)]
+use crate::verif_hash::{HashMap, HashSet};
 use std::fs;
 use std::path::{Path, PathBuf};
 
